@@ -198,7 +198,7 @@ template <class Runner> void runHistory(Run& R) {
     const Json& ops = R.plan.at("ops");
     for (size_t i = 0; i < ops.a.size() && !R.stop; ++i) {
         if (ops.a[i].t != Json::Obj) continue;
-        R.opIdx = i; R.op = &ops.a[i]; R.phase = "op"; R.extraLive = 0; R.kind = ops.a[i].str("op"); R.stateClass = ""; R.family = familyOf(R.kind); R.directOp = prefixOf(R.kind);
+        R.opIdx = i; R.op = &ops.a[i]; R.phase = "op"; R.extraLive = 0; R.opChanged = false; R.kind = ops.a[i].str("op"); R.stateClass = ""; R.family = familyOf(R.kind); R.directOp = prefixOf(R.kind);
         note(R);
         r->step();
     }
@@ -291,10 +291,10 @@ struct C20 : public Driver {
             if (fn.compare(0, cls.size(), cls) == 0 && calledDirectly(R, fn.substr(cls.size())) && !invariantExpr(A.expr))
                 R.res.harness("the interpreter called " + fn + " outside its documented precondition: " + text);     // generator bug, never a verdict
             else
-                R.res.violate("library-assert", R.cont + ":" + R.kind + ":" + fn, text + " (not a precondition of the call the harness made: the library broke its own contract)");
+                R.ordinary("library-assert", R.cont + ":" + R.kind + ":" + fn, text + " (not a precondition of the call the harness made: the library broke its own contract)");
         } else if (code == ABORT_SIGNAL) {
             R.tr.ev("signal " + std::to_string(A.sig));
-            R.res.violate("abnormal-termination", "signal" + std::to_string(A.sig) + ":" + R.cont + ":" + (R.mm.refused ? "after-refused-allocation" : "fault-free"),
+            R.ordinary("abnormal-termination", "signal" + std::to_string(A.sig) + ":" + R.cont + (R.fired ? ":after-refused-allocation" : ""),
                           "signal " + std::to_string(A.sig) + " inside the library during " + at + (R.modeB ? " (mode B: an allocation had been refused earlier in this history: " + std::to_string(R.mm.refused) + ")" : ""));
         } else {
             R.tr.ev("watchdog");
@@ -415,7 +415,41 @@ struct C20 : public Driver {
         tr.ev("child-died " + cls + " " + sig);
     }
 
+    // One history; when it contains findings that need not involve a fault but occurred after one had fired, the same
+    // history is executed once more with every fault removed: what shows up there as well is an ordinary defect, the rest
+    // is a late consequence of the refused allocation.
     void executeHere(const Json& plan, Result& res, Trace& tr) {
+        std::vector<std::pair<std::string, std::string> > suspects; std::vector<size_t> noEffect; std::vector<std::pair<size_t, Json> > forced;
+        runPass(plan, res, tr, &suspects, &noEffect, &forced);
+        if (suspects.empty()) return;
+        // the fault-free twin: operations whose refused allocation left everything unchanged are dropped, the others run without faults
+        Json clean = plan; clean["mode"] = "A";
+        { Json ops = Json::array(); const Json& all = plan.at("ops"); for (size_t i = 0; i < all.a.size(); ++i) {
+              if (std::find(noEffect.begin(), noEffect.end(), i) != noEffect.end()) continue;
+              const Json* f = 0; for (auto& fo : forced) if (fo.first == i) f = &fo.second;
+              ops.push(f ? *f : all.a[i]); }
+          clean["ops"] = ops; }
+        Result r2; r2.run = res.run; Trace t2; runPass(clean, r2, t2, 0, 0, 0);
+        res.count("attribution-passes");
+        const std::string cont = plan.str("container");
+        for (auto& key : suspects) {
+            bool alsoFaultFree = false; for (auto& v : r2.viols) if (v.cls == key.first && v.sig == key.second) alsoFaultFree = true;
+            if (alsoFaultFree) continue;
+            for (size_t i = 0; i < res.viols.size(); ++i) {
+                Viol& v = res.viols[i]; if (v.cls != key.first || v.sig != key.second) continue;
+                Viol moved = v; moved.cls = "fault-corrupts-container"; moved.sig = cont + ":latent";
+                moved.detail = "late consequence of an earlier refused allocation (the same history without faults does not show it); symptom [" + v.cls + " " + v.sig + "]: " + v.detail;
+                res.viols.erase(res.viols.begin() + i);
+                bool merged = false; for (auto& w : res.viols) if (w.cls == moved.cls && w.sig == moved.sig) { w.count += moved.count; merged = true; }
+                if (!merged) res.viols.push_back(moved);
+                break;
+            }
+            tr.ev("latent " + key.first + " " + key.second);
+        }
+        if (res.viols.empty() && res.status == "violation") res.status = "ok";
+    }
+
+    void runPass(const Json& plan, Result& res, Trace& tr, std::vector<std::pair<std::string, std::string> >* suspects, std::vector<size_t>* noEffect, std::vector<std::pair<size_t, Json> >* forced) {
         Counted::resetStats(); hashMode() = 0;
         AbortCtx& A = abortCtx();
         Run* R = new Run(res, tr, plan);
@@ -439,6 +473,9 @@ struct C20 : public Driver {
         if (mm.doubleFrees) res.violate("bad-free", R->cont + ":double-free", mm.firstBadFree);
         tr.ev("end allocs=" + std::to_string(mm.serial) + " refused=" + std::to_string(mm.refused) + " live=" + std::to_string(mm.liveBlocks));
         res.count("allocations", (int64_t)mm.serial);
+        if (suspects) *suspects = R->suspects;
+        if (noEffect) *noEffect = R->noEffect;
+        if (forced) *forced = R->forced;
         delete R;
     }
 };
